@@ -554,7 +554,8 @@ namespace gtry::scl::strm
 		BitWidth byteEnableW = in.byteEnable.width();
 		ByteEnable ret = { byteEnableW * param.ratio };
 		ret = reg(ret);
-		ret.byteEnable(param.beat.value() * byteEnableW.bits(), byteEnableW) = in.byteEnable;
+		// select the part like the payload does: `beat.value() * width` is only as wide as the counter and wraps around
+		ret.byteEnable.parts(param.ratio)[param.beat.value()] = in.byteEnable;
 		return ret;
 	}
 
@@ -691,7 +692,8 @@ namespace gtry::scl::strm
 	{
 		BitWidth outByteEnableW = in.byteEnable.width() / param.ratio;
 		ByteEnable ret = { outByteEnableW };
-		ret.byteEnable = in.byteEnable(param.beat.value() * outByteEnableW.bits(), outByteEnableW);
+		// select the part like the payload does: `beat.value() * width` is only as wide as the counter and wraps around
+		ret.byteEnable = in.byteEnable.part(param.ratio, param.beat.value());
 		return ret;
 	}
 
